@@ -23,11 +23,10 @@ def classify(i, meta, v):
     if out in ("panic", "timeout"):
         site = meta.get("site") or "?"
         return ("%s:%s@%s" % (leg, out, site), True, "%s at %s on console line %r" % (out, site, meta.get("line")))
-    sp = meta.get("special")
-    if v >= 2 and sp:
-        return ("c07-parse:" + sp, True, "expression of a console command: " + sp)
     if v >= 2:
-        return (leg + ":spec", True, "console line %r" % meta.get("line"))
+        # the line is parsed without a crash but not to what the documentation says: that is C07's statement (the same
+        # expressions go through `check C07`), not "no input can crash, hang or corrupt the debugger"
+        return None
     return (leg + ":model", False, "real command parser and model disagree on %r" % meta.get("line"))
 
 
